@@ -138,8 +138,8 @@ pub fn check(case: &Case, l: &mut Local) -> Verdict {
             // None is sticky
             regress::verif::set_fuel(DEFAULT_FUEL * 2);
             let polled = std::panic::catch_unwind(std::panic::AssertUnwindSafe(|| match (eng, enc) {
-                (Engine::Bt, Enc::Utf8) => poll_after_end(rbe::find::<rbe::BacktrackExecutor>(&re, h, start), lim + 2),
-                (Engine::Bt, Enc::Ascii) => poll_after_end(rbe::find_ascii::<rbe::BacktrackExecutor>(&re, h, start), lim + 2),
+                (Engine::Bt, Enc::Utf8) => poll_after_end(re.find_from(h, start), lim + 2),
+                (Engine::Bt, Enc::Ascii) => poll_after_end(re.find_from_ascii(h, start), lim + 2),
                 (Engine::Pike, Enc::Utf8) => poll_after_end(rbe::find::<rbe::PikeVMExecutor>(&re, h, start), lim + 2),
                 (Engine::Pike, Enc::Ascii) => poll_after_end(rbe::find_ascii::<rbe::PikeVMExecutor>(&re, h, start), lim + 2),
             }));
@@ -187,7 +187,7 @@ pub fn variants() -> Vec<&'static Variant> {
 }
 
 pub fn run(ctx: &Ctx) -> i32 {
-    ctx.run_variant(&V, ctx.scale(40_000, 800_000));
+    ctx.run_variant(&V, ctx.scale(500_000, 8_000_000));
     ctx.finish(
         "exploration",
         "random patterns biased to empty / adjacent / multi-byte matches x haystacks (<=12/14 chars) x every start (incl. len and len+1); both executors, UTF-8 and ASCII iterators. Oracle = unfold of the library's own first-match from a cursor (end of a non-empty match, one character past an empty one) plus history invariants after every next(): strictly increasing, non-overlapping, <= chars+1 items, None sticky for 10 further calls, nothing from start > len. Non-trivial = >= 2 matches with an empty match or two adjacent matches.",
